@@ -5,7 +5,7 @@ from vf.gen import pick_weighted
 from props.C37 import World, gen_world, finish_case, coq_store, CaseWorld, reach, ancestors, mutate_tree
 
 ID = "C38"
-THEOREMS = []
+THEOREMS = ["C38_rules", "C38_ff_partial", "C38_shallow_ff_refuted", "C38_lease", "C38_objects_complete", "C38_duplicate_dst_refuted"]
 MODEL_FILES = ["RefSpec.v", "RevList.v", "PushRules.v"]
 MODELLED = ("remote.go: PushOptions.Validate (refspec part), Remote.sendPack (delete detection, Force rewriting, command "
             "construction, haves = advertised hashes + shallows, revlist.Objects call), addReferencesToUpdate, "
